@@ -122,3 +122,10 @@ check("C14", "exploration", "Go race detector + cross-talk monitor (concurrent t
       "G in {2,8,32,128} goroutines x GOMAXPROCS in {1,2,4,16}, zero race reports, every transcript byte-identical to its serial twin.",
       "One Transform per goroutine. The race detector sees only interleavings that occurred (yields injected and goroutine-stamp windows reported).",
       "DESIGN.md section 3 C14")
+
+check("C03", "exploration", "runtime crash/hang monitor: recover + child-death attribution + logical Read bound + reader spin detector + memory/time watchdogs over mutated schemas and hostile inputs",
+      "Held on every call (quick 6e3 schemas / ~8e3 transform runs, thorough 3e5 schemas): no panic or fatal runtime error escaped NewSchema / NewTransform / Read, every finite "
+      "input reached a terminal result within len(input)+2 Reads, no spinning on an exhausted reader, no unbounded allocation; seeds = the repository's 20 sample schemas, "
+      "all format kits, rich declaration trees, hierarchies; JSON-level and byte-level schema mutation, adversarial families, hostile inputs incl. 1e4-1e5 nesting levels.",
+      "User JavaScript that loops and caller-registered functions' own failures are outside the claim.",
+      "DESIGN.md section 3 C03")
